@@ -466,7 +466,7 @@ class BGP(protocol.Protocol):
         # construct Open message
         self.capability_negotiate()
         open_msg = Open(
-            version=bgp_cons.VERSION, asn=self.factory.my_asn, hold_time=self.fsm.hold_time,
+            version=bgp_cons.VERSION, asn=self.factory.my_asn, hold_time=CONF.time.hold_time,
             bgp_id=self.factory.bgp_id). \
             construct(cfg.CONF.bgp.running_config['capability']['local'])
         if 'add_path' in cfg.CONF.bgp.running_config['capability']['local']:
@@ -488,7 +488,7 @@ class BGP(protocol.Protocol):
         open_msg_dict = {
             "version": bgp_cons.VERSION,
             "asn": self.factory.my_asn,
-            "hold_time": self.fsm.hold_time,
+            "hold_time": CONF.time.hold_time,
             "bgp_id": str(netaddr.IPAddress(self.factory.bgp_id)),
             "capabilities": cfg.CONF.bgp.running_config['capability']['local']
         }
@@ -582,10 +582,10 @@ class BGP(protocol.Protocol):
 
         """Negotiates the hold time"""
 
-        self.fsm.hold_time = min(self.fsm.hold_time, hold_time)
-        if self.fsm.hold_time != 0 and self.fsm.hold_time < 3:
-            self.fsm.open_message_error(bgp_cons.ERR_MSG_OPEN_UNACCPT_HOLD_TIME)
-            # Derived times
+        if hold_time != 0 and hold_time < 3:
+            raise excep.OpenMessageError(sub_error=bgp_cons.ERR_MSG_OPEN_UNACCPT_HOLD_TIME)
+        self.fsm.hold_time = min(CONF.time.hold_time, hold_time)
+        # Derived times
         self.fsm.keep_alive_time = self.fsm.hold_time / 3
         LOG.info(
             "[%s]Hold time:%s,Keepalive time:%s", self.factory.peer_addr,
